@@ -22,14 +22,19 @@
     newtxfrom VIN VOUT lock ver WIT|-  CMutableTransaction(<VIN>, <VOUT>, lock, ver[, <WIT>])   ('-': witness=None)
     newtxd ver lock vin vout           CMutableTransaction([fresh…], [fresh…], lock, ver)        (witness=None)
     newin PREV|- script seq            CMutableTxIn(<PREV> | None, script, seq)
+    newcin PREV|- script seq           CTxIn(<PREV> | <default>, script, seq)                    (immutable class; D23)
+    wlset W i ST | wlapp W ST          W.vtxinwit[i] = CTxInWitness(CScriptWitness(ST)) | W.vtxinwit.append(…)   (W a CTxWitness, e.g. 3.2)
+    stset IW j hex | stapp IW hex      IW.scriptWitness.stack[j] = b | ….stack.append(b)         (IW a CTxInWitness, e.g. 3.2.0.1)
   container kinds (list / tuple / their subclasses / iterators; T2 only):
     mkseq in|out l|t|L|T T,T,…|-       a list / tuple / list-subclass / tuple-subclass of existing inputs / outputs
     newctxfrom VIN VOUT lock ver WIT|- g|n   CTransaction(<VIN>, <VOUT>, lock, ver[, <WIT>]); g: iterators are passed
-    setwitc r wit cc                   as setwit; cc ∈ {l,t}² = containers of vtxinwit and of each stack
+    setwitc r wit cc                   as setwit; cc ∈ {l,t,L,T}² = containers (list, tuple, their subclasses) of vtxinwit and of each stack
   T := name('.'childindex)*   name = index of the user step that created the root object.
     c09.specx <history>      like c09.runv, computed on Spec.AliasSem (cells with explicit aliasing)
     c09.xcheck <history>     'same' if heap model and Spec.AliasSem agree on every observation, else 'diff@k'
-    c09.runc <history>       c09.run output, then '@@', then the c09.xcheck verdict 
+    c09.runc <history>       c09.run output, then '@@', then the c09.xcheck verdict; here the comparison also
+                             covers the digest of every `sighash` step: heap `rawSigHash` vs `Model.Sighash.rawSignatureHash`
+                             on the value the root denotes (scripts that are their own FindAndDelete image)
 
   After every user step the driver observes every live object (every non-sequence object below
   every named root, preorder): mutability flag, serialize(), GetHash(), GetTxid(), hash() class,
@@ -39,6 +44,7 @@
 import Driver.Util
 import Driver.TxFmt
 import BtcVerif.Model.HeapX
+import BtcVerif.Model.Sighash
 
 namespace Driver.C09
 open BtcVerif Driver BtcVerif.Spec.ValueSem BtcVerif.Model.Heap BtcVerif.Spec.AliasSem
@@ -124,6 +130,11 @@ def parseOutPoint? (s : String) : Option OutPoint :=
 def parseOptTarget? (s : String) : Option (Option Target) :=
   if s == "-" then some none else (parseTarget? s).map some
 
+def parseStack? (s : String) : Option WitStack :=
+  match TxFmt.parseWit? s with
+  | some [st] => some st
+  | _ => none
+
 def parseOpX? (s : String) : Option OpX :=
   match s.splitOn " " with
   | ["setref", t, k, src] => do
@@ -139,6 +150,14 @@ def parseOpX? (s : String) : Option OpX :=
   | ["newtxd", a, b, c, d] => (parseTxWords? a b c d "-").map .newTxDefault
   | ["newin", pr, sc, q] => do
       let pr ← parseOptTarget? pr; let sc ← parseHex? sc; let q ← parseNat? q; pure (.newTxInFrom pr sc q)
+  | ["newcin", pr, sc, q] => do
+      let pr ← parseOptTarget? pr; let sc ← parseHex? sc; let q ← parseNat? q; pure (.newCTxInFrom pr sc q)
+  | ["wlset", t, i, st] => do
+      let t ← parseTarget? t; let i ← parseNat? i; let st ← parseStack? st; pure (.witListEdit t (some i) st)
+  | ["wlapp", t, st] => do let t ← parseTarget? t; let st ← parseStack? st; pure (.witListEdit t none st)
+  | ["stset", t, j, b] => do
+      let t ← parseTarget? t; let j ← parseNat? j; let b ← parseHex? b; pure (.stackEdit t (some j) b)
+  | ["stapp", t, b] => do let t ← parseTarget? t; let b ← parseHex? b; pure (.stackEdit t none b)
   | _ => (parseBaseOp? s).map .base
 
 /-! ### renaming user names to model/spec names -/
@@ -200,6 +219,9 @@ def renameOpX (tbl : List Nat) : OpX → OpX
   | .newTxFrom vi vo lock ver w => .newTxFrom (mapT tbl vi) (mapT tbl vo) lock ver (w.map (mapT tbl))
   | .newTxDefault v => .newTxDefault v
   | .newTxInFrom pr sc q => .newTxInFrom (pr.map (mapT tbl)) sc q
+  | .newCTxInFrom pr sc q => .newCTxInFrom (pr.map (mapT tbl)) sc q
+  | .witListEdit t i st => .witListEdit (mapT tbl t) i st
+  | .stackEdit t j b => .stackEdit (mapT tbl t) j b
 
 def renameOpY (tbl : List Nat) : OpY → OpY
   | .x op => .x (renameOpX tbl op)
@@ -369,6 +391,32 @@ def extraOut (s : St) (tbl : List Nat) : OpY → String
       | none => ""
   | _ => ""
 
+/-- is the script its own `FindAndDelete(script, OP_CODESEPARATOR)` (the heap `rawSigHash` takes the script
+    after that step)? -/
+def fadStable (sub : Bytes) : Bool :=
+  match Model.Sighash.findAndDelete sub [0xab] with
+  | .ok sub' => sub' == sub
+  | .error _ => false
+
+/-- cross-check of the digest (T2 tie of the unproved bridge `rawSigHash_eq_sighash_model`): heap side -/
+def extraOutX (s : St) (tbl : List Nat) (op : OpY) : String :=
+  match op with
+  | .x (.base (.sighash _ sub _ _)) => if fadStable sub then extraOut s tbl op else "=skip"
+  | _ => ""
+
+/-- … and the same digest computed by `Model.Sighash.rawSignatureHash` (the model C03/C05/C06 reason about)
+    on the transaction VALUE the root currently denotes in `Spec.AliasSem` -/
+def extraSpecX (s : XStore) (tbl : List Nat) : OpY → String
+  | .x (.base (.sighash r sub i ht)) =>
+      if !fadStable sub then "=skip" else
+      match s.root (mapRoot tbl r) with
+      | some rf =>
+        match Spec.AliasSem.eval s.cells rf with
+        | some (.tx t) => "=" ++ showRes ((Model.Sighash.rawSignatureHash sub t i (ht : Int)).map (·.1)) toHex
+        | _ => ""
+      | none => ""
+  | _ => ""
+
 def digestStr (s : String) : String := short (Crypto.sha256 s.toUTF8.toList)
 
 def runHistory {σ} (m : Machine σ) (init : σ) (extra : σ → List Nat → OpY → String)
@@ -395,13 +443,13 @@ def handle (op : String) (args : List String) : Option String :=
       | some ops => runHistory specMachine Spec.ValueSem.init (fun _ _ _ => "") true ops
       | none => badArgs
   | "c09.specx", [h] => some <| match (h.splitOn ";").mapM parseOp? with
-      | some ops => runHistory xMachine Spec.AliasSem.init (fun _ _ _ => "") true ops
+      | some ops => runHistory xMachine Spec.AliasSem.init extraSpecX true ops
       | none => badArgs
   | "c09.runc", [h] => some <| match (h.splitOn ";").mapM parseOp? with
       | some ops =>
         let r := runHistory heapMachine Model.Heap.init extraOut false ops
-        let a := (runHistory heapMachine Model.Heap.init (fun _ _ _ => "") true ops).splitOn ";"
-        let b := (runHistory xMachine Spec.AliasSem.init (fun _ _ _ => "") true ops).splitOn ";"
+        let a := (runHistory heapMachine Model.Heap.init extraOutX true ops).splitOn ";"
+        let b := (runHistory xMachine Spec.AliasSem.init extraSpecX true ops).splitOn ";"
         match (a.zip b).zipIdx.find? (fun ((x, y), _) => x != y) with
         | none => r ++ "@@same"
         | some (_, k) => r ++ s!"@@diff@{k}"
